@@ -7,6 +7,7 @@
 -/
 import NcVerif.Proofs.Framing10
 import NcVerif.Proofs.Framing11
+import NcVerif.Proofs.SessionC
 namespace NcVerif.C01
 open NcVerif NcVerif.Framing NcVerif.FramingSpec
 
@@ -69,6 +70,33 @@ theorem no_early11 (mss : List (List Bytes)) (q : Bytes) (segs : List Bytes)
     obs (feedAll true init segs) = outcomes present11 (mss.map List.flatten) := by
   exact Framing11.no_early11 mss q segs hw hq h
 
+/-! ## Session level: what listeners are handed is what the framing layer produced -/
+
+section SessionLevel
+open NcVerif.Session NcVerif.SessionSpec
+
+/-- The worker hands to `_dispatch_message` exactly the messages the parser delivers for the bytes
+    read, in order — whatever the segmentation — as long as no listener failed on the way (the
+    receive iterations all end back in the loop).  Together with `spec10` / `seg_indep11` /
+    `decode_encode*`: registered listeners see exactly the stream's messages, once each, in order. -/
+theorem received_is_framing (env : Env) (w : World) (segs : List Bytes)
+    (hs : w.pc = .select) (hne : ∀ s ∈ segs, s ≠ [])
+    (hok : (readSegs env w segs).pc = .select) :
+    (readSegs env w segs).received =
+      w.received ++ delivers (obs (feedAll w.base11 w.parser segs)) ∧
+    hasRaise (obs (feedAll w.base11 w.parser segs)) = false := by
+  exact SessionC.received_is_framing env segs w hs hne hok
+
+/-- …hence independent of how the same bytes were cut into reads. -/
+theorem received_seg_indep (env : Env) (w : World) (segs₁ segs₂ : List Bytes)
+    (hs : w.pc = .select) (hp : w.parser = Framing.init)
+    (hne₁ : ∀ s ∈ segs₁, s ≠ []) (hne₂ : ∀ s ∈ segs₂, s ≠ []) (hf : segs₁.flatten = segs₂.flatten)
+    (hok₁ : (readSegs env w segs₁).pc = .select) (hok₂ : (readSegs env w segs₂).pc = .select) :
+    (readSegs env w segs₁).received = (readSegs env w segs₂).received := by
+  exact SessionC.received_seg_indep env w segs₁ segs₂ hs hp hne₁ hne₂ hf hok₁ hok₂
+
+end SessionLevel
+
 /-! ## Non-vacuity -/
 
 -- a two-message non-ASCII 1.0 stream cut inside `é` (c3|a9) and inside the delimiter
@@ -83,5 +111,14 @@ example : obs (feedAll true init [[0x0a, 0x23, 0x31], [0x0a, 0xc3, 0x0a, 0x23, 0
 example : Frameable10 [0x3c, 0x61, 0x3e] := by decide
 example : ¬ Frameable10 [0x5d, 0x5d, 0x3e] := by decide
 example : WF [[[0xc3], [0xa9]]] := by decide
+
+-- session level: a started 1.0 session (its hello written) at `select`; the stream "n]]>]]>r1]]>]]>" cut inside the delimiter
+-- comes back to `select` with both messages received, in order
+example :
+    let w := Session.run C03demo.env Session.init [.kAddListeners, .kSendHello [0x68], .kStart, .wTop true, .wWrite 2, .wWrite 1, .wWrite 10, .wTop false]
+    w.pc = .select ∧
+    (NcVerif.SessionSpec.readSegs C03demo.env w [[0x6e, 0x5d, 0x5d], [0x3e, 0x5d, 0x5d, 0x3e, 0x72, 0x31, 0x5d], [0x5d, 0x3e, 0x5d, 0x5d, 0x3e]]).pc = .select ∧
+    (NcVerif.SessionSpec.readSegs C03demo.env w [[0x6e, 0x5d, 0x5d], [0x3e, 0x5d, 0x5d, 0x3e, 0x72, 0x31, 0x5d], [0x5d, 0x3e, 0x5d, 0x5d, 0x3e]]).received
+      = ["n".toList, "r1".toList] := by decide +kernel
 
 end NcVerif.C01
